@@ -6,7 +6,7 @@ from .analyses import crate_text, VERIF
 PATTERNS = [('unwrap', r'\.unwrap\(\)'), ('expect', r'\.expect\('), ('assert', r'\bassert(?:_eq|_ne)?!\s*\('), ('panic', r'\bpanic!\s*\('),
             ('unreachable', r'\bunreachable!\s*\('), ('unimplemented', r'\b(?:unimplemented|todo)!\s*\('),
             ('slice-index', r'\[[^\[\]\n]*\.\.[^\[\]\n]*\]'), ('get_unchecked', r'get_unchecked\('), ('index', r'\w\[\w+\]'),
-            ('arith-sub', r'\bdepth\s*-=\s*1'), ('unsafe', r'\bunsafe\s*\{')]
+            ('arith-sub', r'\bdepth\s*-=\s*1'), ('unsafe', r'\bunsafe\s*\{'), ('borrow', r'\.borrow(?:_mut)?\(\)')]
 CRATES = ['sv-parser', 'sv-parser-pp', 'sv-parser-parser', 'sv-parser-syntaxtree', 'sv-parser-macros', 'sv-parser-error']
 
 
@@ -48,8 +48,8 @@ def classify_default(s):
             return 'rule:many1-nonempty (the joined list comes from many1)'
         if k == 'unsafe' or 'new_from_raw_offset' in t:
             return 'rule:concat-chain (unsafe str_concat / raw offset: same adjacency condition)'
-        if 'borrow' in t:
-            return 'unverified (RefCell borrow of a thread-local; no re-entrancy in the accessors)'
+        if k == 'borrow':
+            return 'unverified (RefCell borrow not yet classified: rule borrow-local applies only to the sites listed in panic_sites.json)'
         return 'unverified'
     if f == 'sv-parser-pp/src/range.rs':
         return 'proved:pt (Range::new precondition begin <= end proved at every call site under contract)'
@@ -76,3 +76,78 @@ def classify_default(s):
             return 'proved:getstr (Locate::str precondition in range / char boundary)'
         return 'unverified'
     return 'unverified'
+
+
+# rule borrow-local: a RefCell borrow panics only when another borrow of the same cell is live.  Every borrow in the six crates
+# sits in an accessor of a thread-local (`NAME.with(|v| ...)`); the rule holds for a function when its body calls nothing but
+# the methods below on the borrowed value - then no code runs while the borrow is live that could borrow again.
+BORROW_ALLOWED = {'with', 'borrow', 'borrow_mut', 'last', 'is_some', 'is_none', 'is_empty', 'len', 'push', 'pop', 'clear', 'Some', 'Ok', 'Err', 'new', 'copied', 'cloned'}
+
+
+def fn_body(src, pos):
+    """text of the body of the function enclosing pos (brace matching on string-blanked text)"""
+    starts = [m for m in re.finditer(r'\bfn\s+(?:r#\w+|\w+)', src[:pos])]
+    if not starts:
+        return None
+    b = src.find('{', starts[-1].end())
+    if b < 0 or b > pos:
+        return None
+    d = 0
+    for i in range(b, len(src)):
+        if src[i] == '{':
+            d += 1
+        elif src[i] == '}':
+            d -= 1
+            if d == 0:
+                return src[b:i + 1] if i >= pos else None
+    return None
+
+
+def PARSER_ATTR_NAMES(texts):
+    """functions carrying a packrat / tracable attribute: their expansion touches the memo thread-local"""
+    out = set()
+    for rel, src in texts:
+        for m in re.finditer(r'#\[(?:packrat_parser|tracable_parser|recursive_parser)\][^{;]*?\bfn\s+(r#\w+|\w+)', src):
+            out.add(m.group(1))
+    return out
+
+
+def borrow_local():
+    """-> (n_sites_ok, [description of each borrow site the rule does not cover])"""
+    ok, bad = 0, []
+    texts = []
+    for crate in CRATES:
+        for rel, raw in crate_text(crate):
+            src = front.blank_strings(raw)
+            texts.append((rel, re.sub(r'//[^\n]*', lambda m: ' ' * len(m.group(0)), src)))
+    # functions of the six crates that may borrow (by NAME, over-approximated): those whose body borrows or touches a
+    # thread-local, and those that call one of them; a call of any other name (std methods, pure helpers) cannot borrow the cell
+    bodies = {}
+    for rel, src in texts:
+        for m in re.finditer(r'\bfn\s+(r#\w+|\w+)', src):
+            b = fn_body(src, src.find('{', m.end()) if src.find('{', m.end()) >= 0 else m.end())
+            if b is not None:
+                bodies.setdefault(m.group(1), []).append(b)
+    tainted = set(n for n, bs in bodies.items() if any(re.search(r'\.borrow(?:_mut)?\(\)|\.\s*with\s*\(\s*\|', b) or re.search(r'packrat', b) for b in bs))
+    grew = True
+    while grew:
+        grew = False
+        for n, bs in bodies.items():
+            if n not in tainted and any(set(re.findall(r'\b(\w+)\s*\(', b)) & tainted for b in bs):
+                tainted.add(n)
+                grew = True
+    for rel, src in texts:
+        if True:
+            for m in re.finditer(r'\.borrow(?:_mut)?\(\)', src):
+                body = fn_body(src, m.start())
+                fn = enclosing_fn(src, m.start())
+                if body is None or not re.search(r'\b[A-Z][A-Z0-9_]*\s*\.\s*with\s*\(\s*\|', body):
+                    bad.append('%s %s: borrow outside a thread-local accessor' % (rel, fn))
+                    continue
+                calls = (set(re.findall(r'\b(\w+)\s*\(', body)) - BORROW_ALLOWED) & (tainted | PARSER_ATTR_NAMES(texts))
+                macros = set(re.findall(r'\b(\w+)!\s*[\(\[\{]', body)) - {'vec', 'matches', 'debug_assert'}
+                if calls or macros:
+                    bad.append('%s %s: the accessor also calls %s' % (rel, fn, ', '.join(sorted(calls | macros))))
+                else:
+                    ok += 1
+    return ok, bad
